@@ -463,6 +463,9 @@ def rejected_phase(chk, hy, env, batch, n):
 GUARDS = [
     # (hy source template over a name list, python source template, compiles to statements?)
     ("True", "True", False), ("False", "False", False),
+    # literal guards, falsy ones included: their Hy models are falsy objects (fb0bfe7)
+    ("0", "0", False), ('""', '""', False), ("[]", "[]", False), ("{{}}", "{{}}", False), ("0.0", "0.0", False),
+    ("None", "None", False), ("1", "1", False), ('"g"', '"g"', False), ("[0]", "[0]", False), ("#()", "()", False),
     ("(isinstance {0} int)", "isinstance({0}, int)", False),
     ("(= {0} 1)", "{0} == 1", False),
     ("(do (setv g-tmp {0}) (= g-tmp 1))", "{0} == 1", True),
@@ -563,7 +566,7 @@ def structure_phase(chk, hy, env, batch, n_forms):
     forms = []
     for _ in range(n_forms):
         ncases = rng.randrange(0, 5)
-        gs = [rng.choice([None, "expr", "stmts"]) for _ in range(ncases)]
+        gs = [rng.choice([None, "expr", "stmts", "lit"]) for _ in range(ncases)]
         forms.append(gs)
     exprs = []
     for gs in forms:
@@ -579,6 +582,7 @@ def structure_phase(chk, hy, env, batch, n_forms):
         parts = []
         for i, g in enumerate(gs):
             gsrc = "" if g is None else (" :if (= s %d)" % (100 + i) if g == "expr"
+                                        else " :if " + ["0", '""', "[]", "{}", "5"][i % 5] if g == "lit"
                                         else " :if (do (setv g-tmp %d) (= s g-tmp))" % (100 + i))
             parts.append("%d%s %d" % (i, gsrc, i))
         src = "(match s %s)" % " ".join(parts)
@@ -594,11 +598,13 @@ def structure_phase(chk, hy, env, batch, n_forms):
                 gid = [n.value for n in ast.walk(st) if isinstance(n, ast.Constant) and isinstance(n.value, int) and n.value >= 100][0] - 100
                 defs.append(("tuple", anon(st.name), gid))
             elif isinstance(st, ast.Match):
-                for c in st.cases:
+                for ci, c in enumerate(st.cases):
                     if c.guard is None:
                         guards.append("PGNone")
                     elif isinstance(c.guard, ast.Call):
                         guards.append(("PGCall", anon(c.guard.func.id)))
+                    elif not isinstance(c.guard, ast.Compare):
+                        guards.append(("PGExpr", ci))       # a literal guard, kept as the case's own guard
                     else:
                         gid = c.guard.comparators[0].value - 100
                         guards.append(("PGExpr", gid))
@@ -656,6 +662,18 @@ def run_all(chk, hy, model_ok, thorough):
         if (got[0] if isinstance(got, tuple) else got) != entry["expect"]:
             chk.fail("corpus", {"id": entry["id"], "fixed_by": entry["commit"], "form": entry["hy"], "pattern": P.pat_hy(pat)},
                      repr(got), entry["expect"], "regression of a repaired defect: hy.eval of " + entry["hy"])
+    import json
+    import os
+    for entry in json.load(open(os.path.join(vlib.VERIF, "corpus", "C08", "fixed-forms.json"))):
+        chk.count("corpus")
+        try:
+            got = hy.eval(hy.read(entry["hy"]), module=env)
+        except Exception as e:
+            got = "raises " + type(e).__name__
+        chk.case(("corpus-form", entry["hy"]), nontrivial=True)
+        if got != entry["expect"]:
+            chk.fail("corpus-form", {"id": entry["id"], "fixed_by": entry["commit"], "form": entry["hy"]}, repr(got),
+                     repr(entry["expect"]), "regression of a repaired defect: hy.eval(hy.read(%r))" % entry["hy"])
     pats = [("class", ["Pt"], [("lit", "int", 1)], [("q", ("sym", "n1"))])]
     while len(pats) < n_pat:
         pats.append(gen_pattern(rng, rng.randrange(0, depth + 1), Names(rng)))
